@@ -33,7 +33,7 @@ impl<T: ?Sized> Mutex<T> {
     fn id(&self) -> u32 {
         let mut id = self.id.get();
         if id == UNASSIGNED {
-            id = core::new_mutex_id();
+            id = core::new_mutex_id(std::any::type_name::<T>());
             self.id.set(id);
         }
         id
@@ -41,6 +41,9 @@ impl<T: ?Sized> Mutex<T> {
 
     pub fn lock(&self) -> LockResult<MutexGuard<'_, T>> {
         let id = self.id();
+        if core::mutex_try_elided(id) {
+            return Ok(MutexGuard { m: self, id });
+        }
         // one scheduling point: resumed only when the mutex is free
         core::sched_point(Wait::Mutex(id));
         core::mutex_acquire(id);
